@@ -104,9 +104,15 @@ h_build_treeseq(tsk_table_collection_t *t, tsk_treeseq_t *ts, h_tables_t *T)
         if (j > 0 && T->time[T->parent[j]] < T->time[T->parent[j - 1]]) {
             sym_assume(0);
         }
+#ifdef ONE_TREE
+        /* every edge spans the whole genome: one tree, structure only */
+        T->left[j] = 0;
+        T->right[j] = SEQ_L;
+#else
         T->left[j] = sym_f64_int(sym_nm(nm, "l", j));
         T->right[j] = sym_f64_int(sym_nm(nm, "r", j));
         sym_assume(0 <= T->left[j] && T->left[j] < T->right[j] && T->right[j] <= SEQ_L);
+#endif
         ret = tsk_edge_table_add_row(
             &t->edges, T->left[j], T->right[j], T->parent[j], T->child[j], NULL, 0);
         sym_assume(ret == j);
